@@ -160,43 +160,10 @@ fn nopanic_dkg_round2_secret_package() {
     let _ = de_any!(dkg::round2::SecretPackage<Toy251>, 6);
 }
 
-// BTreeMap-carrying types (PublicKeyPackage, SigningPackage): fully symbolic input means SYMBOLIC MAP KEYS, the
-// case the design (§2.5) rules out for Kani.  Tried and dropped (see README): symbolic map-length byte <= 1:
-// no result in 25 min; concrete map length 0 / 1 with everything else symbolic: CBMC out of memory after
-// 12-18 min.  What does finish is the weaker statement below: a WELL-FORMED FRAME (header, element count,
-// map key and length prefixes concrete) with ARBITRARY value bytes (valid or not), ARBITRARILY TRUNCATED.
-const HDR: [u8; 5] = [
-    0,
-    crate::codec::TOY251_SHORT_ID[0],
-    crate::codec::TOY251_SHORT_ID[1],
-    crate::codec::TOY251_SHORT_ID[2],
-    crate::codec::TOY251_SHORT_ID[3],
-];
-
-// @harness name=nopanic_public_key_package_framed props=C14 kind=bounded bound="frame hdr|1|id=1|vs|vk|tag|t with arbitrary bytes vs, vk, tag, t (valid or not), every prefix length 0..=11" tier=thorough backs="no panic in PublicKeyPackage::deserialize on a well-formed one-entry frame with arbitrary value bytes, arbitrarily truncated" expect=pass
-#[kani::proof]
-#[kani::unwind(5)]
-#[kani::stub(frost_core::serialization::short_id, stub_short_id)]
-fn nopanic_public_key_package_framed() {
-    let v: [u8; 4] = kani::any();
-    let buf = [HDR[0], HDR[1], HDR[2], HDR[3], HDR[4], 1, 1, v[0], v[1], v[2], v[3]];
-    let len: usize = kani::any();
-    kani::assume(len <= 11);
-    let r = PublicKeyPackage::<Toy251>::deserialize(&buf[..len]);
-    core::mem::forget(r);
-}
-
-// @harness name=nopanic_signing_package_framed props=C14 kind=bounded bound="frame hdr|1|id=1|hdr|D|E|1|m with arbitrary bytes D, E, m (valid or not), every prefix length 0..=16" tier=thorough backs="no panic in SigningPackage::deserialize on a well-formed one-entry frame with arbitrary value bytes, arbitrarily truncated" expect=pass
-#[kani::proof]
-#[kani::unwind(5)]
-#[kani::stub(frost_core::serialization::short_id, stub_short_id)]
-fn nopanic_signing_package_framed() {
-    let v: [u8; 3] = kani::any();
-    let buf = [
-        HDR[0], HDR[1], HDR[2], HDR[3], HDR[4], 1, 1, HDR[0], HDR[1], HDR[2], HDR[3], HDR[4], v[0], v[1], 1, v[2],
-    ];
-    let len: usize = kani::any();
-    kani::assume(len <= 16);
-    let r = SigningPackage::<Toy251>::deserialize(&buf[..len]);
-    core::mem::forget(r);
-}
+// BTreeMap-carrying types (PublicKeyPackage, SigningPackage): NO no-panic harness is kept.  Fully symbolic input
+// means symbolic map keys, the case the design (§2.5) rules out for Kani.  Tried and dropped (see README):
+//   * symbolic map-length byte <= 1, everything else symbolic (N = 10 / 16): no result in 25 min;
+//   * concrete map length 0 / 1, everything else symbolic (N = 10..17): CBMC out of memory after 12-18 min;
+//   * well-formed one-entry frame with arbitrary value bytes, arbitrarily truncated: CBMC out of memory.
+// What exists for these two decoders: codec_dec_* (every well-formed encoding within the bound decodes to the
+// value) and codec_pkp_threshold_tail_lenient (arbitrary bytes after the verifying key never fail).
